@@ -275,6 +275,13 @@ pub fn c07(g: &mut G) {
             g.emit("stream always - -".into());
         }
     }
+    // the sink of the command-line tool: a file that may already exist (and be longer)
+    for (i, what) in ["set", "map", "union", "set", "map", "union"].iter().enumerate() {
+        let words = ["apple", "banana", "cherry", "damson", "elder", "fig", "grape", "k1", "k2", "zz"];
+        let n = 2 + g.rng.below(8) as usize;
+        let rows: Vec<String> = (0..n).map(|j| format!("{}:{}", hex(words[(j * 3 + i) % words.len()].as_bytes()), 1 + j)).collect();
+        g.emit(format!("!cli {} {} {}", what, if i < 3 { 0 } else { 900 }, rows.join(",")));
+    }
     // a 1 000-key map through a chunky sink
     let mut rng = Rng::new(g.rng.next());
     let words = random_words(&mut rng, 1000, b"abcdef", 8);
